@@ -1201,4 +1201,47 @@ example : wtf8ValidatePrefix [0x41, 0xED, 0xA0, 0x80] = true := by decide
 example : wtf8Fixup [0xED, 0xA0, 0xBD] [0xED, 0xB8, 0x80] = ⟨3, 3, [0xF0, 0x9F, 0x98, 0x80]⟩ := by decide
 example : wtf8Fixup [0xED, 0xB8, 0x80] [0xED, 0xA0, 0xBD] = {} := by decide
 
+/-! ## the format laws with a concatenation fix-up
+
+`Laws` (C11) describes concatenation as plain append, which WTF-8 does not satisfy
+(`not_laws_wtf8`).  `LawsFx` is its generalisation to `pushSpec` (append with the format's
+fix-up): every `Laws` format satisfies it (`Laws.toFx`), and so does WTF-8
+(`laws_wtf8_partial`).  What is *not* done is re-proving the refinement theorem of C11 over
+`LawsFx` (the specification's push becoming `pushSpec`): besides the mechanical part it needs a
+buffer-level invariant — every shared view lies inside a prefix of its buffer that was valid as a
+whole — to show that the zero-copy merge of adjacent views in `push_tendril` (which skips the
+fix-up) agrees with `pushSpec` (`fixup_trivial` then applies, the concatenation of the two views
+being a part of a valid string).  Until then WTF-8 is covered by C12's safety theorems
+(`SafeLaws`), the correspondence and the Python reference. -/
+
+structure LawsFx (F : Format) : Prop where
+  fixupOK : FixupOK F
+  valid_nil : F.validate [] = true
+  push_valid : ∀ a b, F.validate a = true → F.validate b = true → F.validate (pushSpec F a b) = true
+  fixup_trivial : ∀ a b, F.validate (a ++ b) = true → F.fixup a b = {}
+  suffix_exact : ∀ a b, F.validate (a ++ b) = true → F.validateSuffix b = F.validate b
+  prefix_exact : ∀ a b, F.validate (a ++ b) = true → F.validatePrefix a = F.validate a
+  subseq_exact : ∀ a b c, F.validate (a ++ (b ++ c)) = true → F.validateSubseq b = F.validate b
+
+/-- every format without a fix-up that satisfies `Laws` satisfies the generalised laws -/
+theorem _root_.H5V.Props.C11.Laws.toFx {F : Format} (L : Laws F) : LawsFx F where
+  fixupOK := L.fixupOK
+  valid_nil := L.valid_nil
+  push_valid a b ha hb := by rw [L.pushSpec]; exact L.valid_append a b ha hb
+  fixup_trivial a b _ := L.noFixup a b
+  suffix_exact := L.suffix_exact
+  prefix_exact := L.prefix_exact
+  subseq_exact := L.subseq_exact
+
+/-- **WTF-8 satisfies the format laws with fix-up** (partial with respect to C11: the laws are
+proved, the refinement theorem is not yet stated over them — see above). -/
+theorem laws_wtf8_partial : LawsFx Format.wtf8 where
+  fixupOK := wtf8_fixup_ok
+  valid_nil := wtf8_valid_nil
+  push_valid := wtf8_push_valid
+  fixup_trivial := wtf8_fixup_trivial
+  suffix_exact := wtf8_suffix_exact
+  prefix_exact := wtf8_prefix_exact
+  subseq_exact := wtf8_subseq_exact
+
 end H5V.Lemmas.Tendril.Wtf8
